@@ -40,7 +40,9 @@ int vh_log_i; double vh_log_d;
 extern void pxgstrf_relax_snode(const int_t, superlumt_options_t *, pxgstrf_relax_t *);
 int_t sp_ienv(int_t i) { return 1; }
 
+extern void pxgstrf_mark_busy_descends(int_t, int_t, int_t *, pxgstrf_shared_t *, int_t *, int_t *);
 static int_t n, etree[NMAX + 1];
+static int_t lbusy[P][NMAX + 1], g_xsup[NMAX + 1], g_supno[NMAX + 1], g_xsup_end[NMAX + 1];
 static pxgstrf_shared_t sh;
 static int cur[P], holding[P], exited[P], taken[NMAX], ntaken, total;
 
@@ -94,6 +96,19 @@ static void check_take(int p, int jcol, int bcol)
                                   "unfinished descendants form a single chain");
             }
         }
+    }
+    /* C03(b): what the worker marks as busy (REAL pxgstrf_mark_busy_descends) covers every descendant
+       column that has not been released yet -- those are the columns panel_dfs must skip and
+       panel_bmod must wait for */
+    if (sh.pan_status[jcol].type != RELAXED_SNODE) {
+        int_t b2 = bcol;
+        pxgstrf_mark_busy_descends(p, jcol, etree, &sh, &b2, lbusy[p]);
+        for (k = 0; k < NMAX; ++k)
+            if (k < jcol && is_desc(k, jcol, w) && sh.spin_locks[k] != 0) {
+                vh_assert(lbusy[p][k] == jcol, "every descendant column that is not released yet is marked busy for this panel");
+                vh_assert(b2 <= k, "the wait starts at or below every unreleased descendant column");
+            }
+        vh_assert(b2 >= 0 && b2 <= jcol, "start of the wait chain in range");
     }
     if (bcol < jcol) {
         int pb = panel_of(bcol);
@@ -175,6 +190,18 @@ VH_MAIN
     ParallelInit(n, relaxs, &opt, &sh);
 
     build_anc();
+    /* supernodes of finished columns as mark_busy_descends sees them: symbolic boundaries inside panels
+       (a supernode never crosses a panel boundary at the time its panel is busy or done) */
+    Glu.xsup = g_xsup; Glu.supno = g_supno; Glu.xsup_end = g_xsup_end;
+    {
+        int s_ = -1, c;
+        for (c = 0; c < NMAX; ++c) if (c < n) {
+            int brk = vh_int_in(0, 1);
+            if (sh.pan_status[c].size >= 1 || brk) { ++s_; g_xsup[s_] = c; }
+            g_supno[c] = s_; g_xsup_end[s_] = c + 1;
+        }
+        for (p = 0; p < P; ++p) for (c = 0; c <= NMAX; ++c) lbusy[p][c] = EMPTY;
+    }
     total = sh.tasks_remain;
     for (i = 0; i < NMAX; ++i) taken[i] = 0;
     for (p = 0; p < P; ++p) { cur[p] = EMPTY; holding[p] = 0; exited[p] = 0; }
